@@ -35,10 +35,14 @@ pub struct Profile {
 	/// after the off-chain steps a channel is closed unilaterally (latest or revoked commitment) and the
 	/// chain is mined until every output has matured and been swept
 	pub onchain: bool,
+	/// copies of the nodes receive the same blocks in other legal delivery styles (C11)
+	pub chain_equiv: bool,
+	/// forwarding-deadline scenarios on a line of three nodes (C08)
+	pub deadline_sweep: bool,
 }
 impl Profile {
 	pub fn for_prop(prop: &str, thorough: bool) -> Profile {
-		let base = Profile { prop: prop.to_string(), steps: if thorough { 1500 } else { 600 }, nodes: 2, allow_async: false, allow_deferred: false, allow_disconnect: true, allow_fee_updates: true, allow_ticks: true, coop_close_at_end: true, multi_hop: false, mid_settles: true, allow_restart: false, allow_force_close: false, persist_manager_often: false, parallel: false, pay_workload: false, onchain: false };
+		let base = Profile { prop: prop.to_string(), steps: if thorough { 1500 } else { 600 }, nodes: 2, allow_async: false, allow_deferred: false, allow_disconnect: true, allow_fee_updates: true, allow_ticks: true, coop_close_at_end: true, multi_hop: false, mid_settles: true, allow_restart: false, allow_force_close: false, persist_manager_often: false, parallel: false, pay_workload: false, onchain: false, chain_equiv: false, deadline_sweep: false };
 		match prop {
 			"C01" => base,
 			"C05" => Profile { allow_async: true, allow_restart: true, allow_force_close: true, ..base },
@@ -47,6 +51,8 @@ impl Profile {
 			"C03" => Profile { allow_async: true, nodes: 3, multi_hop: true, allow_restart: true, parallel: true, pay_workload: true, ..base },
 			"C04" => Profile { allow_async: true, nodes: 3, multi_hop: true, parallel: true, pay_workload: true, ..base },
 			"C12" => Profile { allow_async: true, allow_deferred: true, nodes: 3, multi_hop: true, allow_restart: true, allow_force_close: true, parallel: true, pay_workload: true, ..base },
+			"C08" => Profile { deadline_sweep: true, steps: 0, nodes: 3, multi_hop: true, allow_async: false, coop_close_at_end: false, ..base },
+			"C11" => Profile { onchain: true, chain_equiv: true, steps: if thorough { 200 } else { 120 }, allow_async: false, coop_close_at_end: false, mid_settles: true, ..base },
 			"C06" | "C07" => Profile { onchain: true, steps: if thorough { 260 } else { 160 }, allow_async: false, coop_close_at_end: false, mid_settles: true, ..base },
 			"C10" => Profile { allow_async: true, allow_deferred: true, nodes: 3, multi_hop: true, allow_restart: true, persist_manager_often: true, ..base },
 			_ => base,
@@ -75,7 +81,7 @@ pub fn user_config(rng: &mut Rng, ctype: ChanType) -> UserConfig {
 	c.channel_handshake_limits.max_minimum_depth = 10;
 	c.channel_config.forwarding_fee_base_msat = *rng.pick(&[0u32, 1, 1000]);
 	c.channel_config.forwarding_fee_proportional_millionths = *rng.pick(&[0u32, 100, 10_000]);
-	c.channel_config.cltv_expiry_delta = *rng.pick(&[36u16, 72, 144]);
+	c.channel_config.cltv_expiry_delta = *rng.pick(&[48u16, 72, 144]);
 	c.channel_config.max_dust_htlc_exposure = if rng.chance(1, 2) { MaxDustHTLCExposure::FeeRateMultiplier(*rng.pick(&[1_000u64, 10_000])) } else { MaxDustHTLCExposure::FixedLimitMsat(*rng.pick(&[500_000u64, 5_000_000, 50_000_000])) };
 	c.accept_forwards_to_priv_channels = true;
 	c
@@ -250,8 +256,13 @@ fn drive(sim: &mut Sim, prof: &Profile, rng: &mut Rng, rep: &mut Report, ctype: 
 	// --- open channels: a line 0-1-2-... ---
 	let edges: Vec<usize> = (0..n - 1).flat_map(|i| if prof.parallel { vec![i, i] } else { vec![i] }).collect();
 	for i in edges {
-		let value = *rng.pick(&[20_000u64, 50_000, 100_000, 400_000, 2_000_000]) + rng.below(10_000);
-		let push = if rng.chance(1, 3) { 0 } else { rng.below(value * 1000 / 2) };
+		let mut value = *rng.pick(&[20_000u64, 50_000, 100_000, 400_000, 2_000_000]) + rng.below(10_000);
+		let mut push = if rng.chance(1, 3) { 0 } else { rng.below(value * 1000 / 2) };
+		if prof.deadline_sweep {
+			// forwarding scenarios need liquidity in the forwarding direction on both channels
+			value = value.max(400_000);
+			push = value * 1000 / 2;
+		}
 		// under delayed-persistence profiles the opening handshake itself runs with async persisters,
 		// random completion order and reconnects
 		let chaos = (prof.allow_async || prof.allow_deferred) && rng.chance(1, 2);
@@ -738,8 +749,16 @@ fn drive(sim: &mut Sim, prof: &Profile, rng: &mut Rng, rep: &mut Report, ctype: 
 			break;
 		}
 	}
+	if prof.deadline_sweep {
+		sim.w.step += 1;
+		crate::deadlines::phase(sim, rng, rep)?;
+		sim.dispatch(rep);
+		sim.end(rep);
+		return Ok(());
+	}
 	if prof.onchain {
 		sim.w.step += 1;
+		sim.w.chain_equiv = prof.chain_equiv;
 		crate::onchain::phase(sim, rng, rep)?;
 		sim.dispatch(rep);
 		sim.end(rep);
